@@ -409,7 +409,7 @@ func (cs *c04Case) c15Run(c *ctx, d *Driver, impl *[]string) {
 		r.fail(cs.Kind+".rt.answers-differ", "Chunks answers differ after write∘read", in)
 	}
 	// previously read indexes: foreign encodings of the same index
-	if len(w1) > 3000 {
+	if len(w1) > 6000 {
 		return
 	}
 	f, ok := fDecode(cs.Kind, w1)
@@ -529,7 +529,7 @@ func checkC15(c *ctx) {
 	c04MemGuard(r)
 	r.Rule = "cases: the C04 generator (bai through bam.Index, csi with 12 geometries / v1,v2 / aux bytes, tbx with header fields and shuffled name pools) plus structural cases " +
 		"(no record, unplaced only = zero references, late reference = empty earlier references, unmapped only). Each case: statistics vs true counts, write, read, write again, accessor values and all Chunks answers before/after; " +
-		"for serialisations up to 3000 bytes additionally 4 foreign encodings of the same index made by the harness's own format codec (reversed order + pseudo-bin first, statistics and trailer dropped, trailer dropped, shuffled bins) " +
+		"for serialisations up to 6000 bytes additionally 4 foreign encodings of the same index made by the harness's own format codec (reversed order + pseudo-bin first, statistics and trailer dropped, trailer dropped, shuffled bins) " +
 		"are read, written, read and written again. An evaluation is one (case) or (foreign encoding); non-trivial = the index has at least one reference with a record (case) / more than 40 bytes (foreign)."
 	if c.replay != "" {
 		var in c15Input
